@@ -186,14 +186,14 @@ theorem segment_local_aabb2_contains_tight (a b : V2 K) :
   exact ⟨fun q hq => support_map_aabb2_contains sq _ _ h q hq, support_map_aabb2_tight sq _ _ h⟩
 
 /-- an isometry maps the segment `[a,b]` onto the segment `[m•a, m•b]` (affine map; any quaternion) -/
-private theorem act_segment3 (m : Iso3 K) (a b p : V3 K) :
+theorem act_segment3 (m : Iso3 K) (a b p : V3 K) :
     letI := fieldNum K sq
     (Segment3.mk a b).Mem p → (Segment3.mk (m.act a) (m.act b)).Mem (m.act p) := by
   rintro ⟨t, h0, h1, rfl⟩
   refine ⟨t, h0, h1, ?_⟩
   simp only [Iso3.act, Iso3.rot, Iso3.rotQ, Iso3.qv, V3.add, V3.sub, V3.smul, V3.cross, fieldNum_two]
   congr 1 <;> ring
-private theorem act_segment2 (m : Iso2 K) (a b p : V2 K) :
+theorem act_segment2 (m : Iso2 K) (a b p : V2 K) :
     letI := fieldNum K sq
     (Segment2.mk a b).Mem p → (Segment2.mk (m.act a) (m.act b)).Mem (m.act p) := by
   rintro ⟨t, h0, h1, rfl⟩
